@@ -88,13 +88,20 @@ def _poisson_changepoints(counts, offset, penalty, min_counts, min_offset):
     def f(i, j):  # loss
         n = N[j] - N[i]
         y = Y[j] - Y[i]
-        s = n < min_offset or y < min_counts
-        return inf if s else -2 * y * (log(y) - log(n) - 1)
+        if n < min_offset or y < min_counts:
+            return inf
+        if y <= 0:  # 0 * log(0) == 0
+            return 0.0
+        return -2 * y * (log(y) - log(n) - 1)
 
     dim = counts.size
     cost = np.empty(dim)
     F = np.empty(dim + 1)
     C = {0: np.empty(0, dtype=np.int64)}
+
+    # a candidate whose current segment is still too short may become optimal once the
+    # segment has grown, so pruning is only valid without minimum-size constraints
+    prune = min_counts == 0 and min_offset == 0
 
     F[0] = -penalty
     for j in np.arange(1, dim + 1):
@@ -105,9 +112,10 @@ def _poisson_changepoints(counts, offset, penalty, min_counts, min_offset):
                 minval = cost[i]
                 argmin = i
         F[j] = minval
-        for i in set(C):  # prune
-            if cost[i] > F[j] + penalty:
-                C.pop(i)
+        if prune:
+            for i in set(C):
+                if cost[i] > F[j] + penalty:
+                    C.pop(i)
         C[j] = np.append(C[argmin], argmin)
 
     breaks = np.append(C[dim], dim).astype(np.int32)
